@@ -138,7 +138,7 @@ theorem runs_newAppend_tail_of_loop (l : Layout) (hF : l.Fits)
   refine Runs.bind (Runs.attempt_ok (Runs.seek_start _)) ?_
   dsimp only
   refine Runs.bind hloop ?_
-  refine Runs.bind (Runs.attempt_ok (Runs.seek_start l.cdStart)) ?_
+  refine Runs.bind (Runs.seek_start l.cdStart) ?_
   exact Runs.pure _
 
 /-- The tail of `newAppend` when the central-directory loop ends in an error: that error is `new_append`'s
